@@ -639,7 +639,7 @@ func c04Gen(c *core.Ctx) {
 		}
 	}
 	// accepted short token strings (arbitrary, not generator-shaped)
-	c01TokenStrings(c.Pick(2, 3), func(s string) {
+	c01TokenStrings(3, func(s string) {
 		core.Do(c, c04Case{Src: s, Kind: "token-string"}, c04Exec)
 	})
 }
@@ -649,7 +649,7 @@ func init() {
 		ID:          "C04",
 		Level:       "exploration",
 		Technique:   "runtime monitoring: intrinsic (source, AST) invariant — the source text found at every recorded position is compared with the token the field documents; Pos()/End() containment and ordering checked on every node of every accepted parse",
-		Rule:        "a case is one source text: generated programs (multi-line, here-documents, nested substitutions, multi-byte names and literals, tabs, comments, continuations) under 4 layouts, plus every accepted string of <=2 (thorough <=3) tokens of the C01 token alphabet; distinct_nontrivial = distinct accepted sources whose every position field was checked. counters field/<Type.Field> give the number of position fields compared per kind.",
+		Rule:        "a case is one source text: generated programs (multi-line, here-documents, nested substitutions, multi-byte names and literals, tabs, comments, continuations) under 4 layouts, plus every accepted string of <=3 tokens of the C01 token alphabet (blank-joined and glued); distinct_nontrivial = distinct accepted sources whose every position field was checked. counters field/<Type.Field> give the number of position fields compared per kind.",
 		Assumptions: []string{"documented exclusions: text inside a line continuation, Comment.End, ordering/containment of nodes that carry here-documents (their End() lies after the rest of the line)"},
 		Gen:         c04Gen,
 		Replay:      func(c *core.Ctx, raw []byte) { core.ReplayOne(c, raw, c04Exec) },
